@@ -513,6 +513,34 @@ fn directed_prelude(ty: &str, rng: &mut Rng) -> Option<(u64, Vec<Vec<u64>>)> {
             vec![K_MERGE, rb, rc],                       // B <- C
             vec![K_MERGE, rc, rb],
         ])),
+        // Map<K, Orswot>: two nested member removes (different member sets) are parked inside the set under
+        // k0 because they overtook B's add; a key remove by a replica that saw only X's updates then trims
+        // both pending contexts onto the same clock ({B:1}); finally B's add arrives (F1 territory)
+        "mapor" if rng.below(7) == 0 => {
+            let m2 = 3 - m0 - m1;
+            Some((1, vec![
+                vec![K_EDIT, ra, 0, 0, 1, m2, 0],        // X: update k0, add m2               (op 0)
+                vec![K_EDIT, rb, 0, 0, 1, m0, 0],        // B: update k0, add m0               (op 1)
+                vec![K_DELIVER, rc, nodup, 0],
+                vec![K_DELIVER, rc, nodup, 0],           // A has seen both
+                vec![K_EDIT, rc, 0, 0, 1, 0, 3],         // A: update k0, rm_all, ctx {X:1,B:1} (op 2)
+                vec![K_EDIT, ra, 0, 0, 1, m1, 0],        // X: update k0, add m1               (op 3)
+                vec![K_DELIVER, rc, nodup, 0],
+                vec![K_EDIT, rc, 0, 0, 1, 0, 3],         // A: update k0, rm_all, ctx {X:2,B:1} (op 4)
+                vec![K_SPAWN, 0, 3],                     // fresh C
+                vec![K_DELIVER, 3, nodup, 0],            // C gets op 0
+                vec![K_DELIVER, 3, nodup, 2],            // C gets op 3 (deliverable: 1 2 3)
+                vec![K_EDIT, 3, 0, 5],                   // C: rm k0, context {X:2}            (op 5)
+                vec![K_SPAWN, 0, 4],                     // fresh R
+                vec![K_DELIVER, 4, nodup, 0],            // R gets op 0
+                vec![K_DELIVER, 4, nodup, 2],            // R gets op 3 (deliverable: 1 2 3 5)
+                vec![K_DELIVER, 4, nodup, 1],            // R gets op 2: parked inside the set
+                vec![K_DELIVER, 4, nodup, 1],            // R gets op 4: parked inside the set
+                vec![K_DELIVER, 4, nodup, 1],            // R gets the key remove: both contexts become {B:1}
+                vec![K_DELIVER, 4, nodup, 0],            // B's add arrives
+                vec![K_MERGE, rb, 4],
+            ]))
+        }
         "mapor" | "mapmm" | "mapmo" | "mapmv" => Some(match rng.below(6) {
             // a parked remove travels inside a state to a replica that already holds the update it
             // covers but never received the remove op; then again through an empty relay
